@@ -18,22 +18,22 @@ T = {
     "C01": ("exploration", "Hypothesis-generated values; round-trip + argument/result differential + reference type mapping; live echo daemon",
             "Generated values (lossless core and each serializer's extra types) are sent through every serializer on the argument and the result path, at serializer level and through a live daemon (args, kwargs, nested, result, batch, stream; compression on/off) and compared type-strictly with the value sent and with an explicit reference mapping. Bounded random exploration: no absence claim.",
             "trusts vlib.values.same() and the reference mapping table written from the serializer docs", "4/C01"),
-    "C02": ("exploration", "Hypothesis-generated class shapes x request names x 5 request kinds against a live daemon; reference exposure predicate; side-effect log",
+    "C02": ("exploration", "Hypothesis-generated class shapes x request names x 5 request kinds against a live daemon; reference exposure predicate; side-effect log; concurrent first metadata requests under a deterministic scheduler (all 1-preemption schedules)",
             "Classes are generated from specs (methods/properties/attributes/helpers, base or sub class, exposed per member/class/not), every member body logs; every name variant is requested through all five request kinds with the client-side filter bypassed; the log and the advertised metadata must equal an independently computed exposure predicate.",
             "trusts the harness's own exposure predicate (written from the documentation) and the member log", "4/C02"),
     "C03": ("fault_enumeration", "generated call histories x scripted per-message transport faults (client-side socket shim), execution counters on the server object",
             "Histories of calls on one proxy with a generated fault per message (lost, late, cut at offset k, reset before/after processing, stale replay, altered sequence number; retries 0..2; sequence wrap-around). Oracle: own reply or CommunicationError, execution counts, recovery.",
             "fault wrapper models a transport faithfully (late replies stay in the stream, dead connections stay dead)", "4/C03"),
-    "C04": ("exploration", "Hypothesis-generated hostile payload trees encoded directly with each serializer; closed-world type oracle + audit hook; atheris on bytes (thorough)",
+    "C04": ("exploration", "Hypothesis-generated hostile payload trees encoded directly with each serializer; closed-world type oracle + audit hook; enumerated tag / nesting / shared-object / escaped-key sweeps",
             "Payload trees with class-tagged dicts at any depth and tags from a hostile grammar are encoded directly with serpent/json/marshal/msgpack and decoded on both paths; the result graph may contain only plain data and the closed class set, tags must be accepted exactly by an independent predicate, and sys.addaudithook must see no import/exec/open/socket/process event.",
             "trusts the independent tag predicate and CPython audit events", "4/C04"),
-    "C05": ("fault_enumeration", "structure-aware hostile byte streams (every header field, length mismatch, every truncation, garbage) interleaved with witness clients on live daemons",
+    "C05": ("fault_enumeration", "structure-aware hostile byte streams (every header field, length mismatch, every truncation, garbage) interleaved with witness clients on live daemons; enumerated hostile CONTENT in well-formed messages against a daemon in its own process",
             "Scripts of hostile connections (mutated handshake/invoke messages, before/inside/after handshake, always ended by disconnect) run against live thread-pool and multiplex daemons with and without COMMTIMEOUT while witness proxies keep calling; witnesses must get their own answers, a fresh client must connect, worker/selector accounting must return to baseline.",
             "real sockets and threads: oracle is schedule independent; 'stranded' is decided by polling with a generous ceiling", "4/C05"),
-    "C06": ("exploration", "Hypothesis round-trip over all header fields/annotations/payloads/fragmentations + differential against an independent reference codec; mutated bytes into the decoder",
+    "C06": ("exploration", "Hypothesis round-trip over all header fields/annotations/payloads/fragmentations + differential against an independent reference codec; mutated bytes into the decoder; atheris (libFuzzer) campaign with the reference parser as in-target oracle",
             "Encode->decode round trip for generated field values over full ranges with scripted stream fragmentation and a trailing message, checked against an independent reference parser written from the header table; mutated and arbitrary byte strings must be rejected unless the reference parser calls them well-formed.",
             "trusts vlib.wire (reference codec, ~80 lines, shares no code with Pyro5.protocol)", "4/C06"),
-    "C07": ("exploration", "enumeration of all exception classes x generated args/attributes x serializers x call kinds on a live daemon",
+    "C07": ("exploration", "enumeration of all exception classes x generated args/attributes x serializers x call kinds on a live daemon (TCP and unix socket); concurrent-clients differential (each client gets what it gets alone)",
             "Every Exception subclass of builtins and Pyro5.errors is raised remotely with generated args and attributes through every serializer and call kind; the client must raise the same class with equal args/attributes and a remote traceback, or a PyroError describing the original when the content is unserialisable; the proxy must stay usable.",
             "class exists on both sides = same interpreter; lossless value domain as in C01", "4/C07"),
     "C08": ("exploration", "generated first messages x validator behaviours x pipelined follow-ups sent by a raw socket peer using the reference codec; execution log",
@@ -42,10 +42,10 @@ T = {
     "C09": ("exploration", "generated connection/call histories against a reference model + deterministic line-level scheduler for racing first calls",
             "Histories of connections opening/calling/closing on single/session/percall classes with truthy, falsy and custom-equality instance shapes and failing creators are compared with a reference model of instance identity; racing first calls on a single-mode class are explored under a harness-owned scheduler (all <=2-preemption schedules, then random).",
             "scheduler preempts at source-line granularity only", "4/C09"),
-    "C10": ("exploration", "model-based generated histories (open/next/close/disconnect/reconnect/housekeeping/clock advance) with a virtual clock on live daemons",
+    "C10": ("exploration", "model-based generated histories (open/next/close/disconnect/reconnect/housekeeping - also while an item is being produced - /clock advance) with a virtual clock on live daemons",
             "Interleaved operations on up to 4 streams from 2 proxies with generated item sequences and lifetime/linger settings; server time is a harness-controlled clock; each next() must give the model's item/StopIteration/exception, forgotten streams must error, and the daemon's stream table must equal the model at quiescence.",
             "virtual clock replaces Pyro5.server.time in the test process", "4/C10"),
-    "C11": ("exploration", "generated call lists executed as a batch on a live daemon and sequentially on a local twin (differential)",
+    "C11": ("exploration", "generated call lists (also behind an earlier batch on the same BatchProxy, and 1000-2500 calls long) executed as a batch on a live daemon and sequentially on a local twin (differential)",
             "Generated call sequences over a stateful object run as a (oneway) batch through each serializer and one by one on an identical local object; result prefixes, failure position/class and final object state must agree.",
             "local twin is the sequential reference", "4/C11"),
     "C12": ("exploration", "generated multi-client histories with per-call unique annotation tags; leak oracle on every reply; both server types",
@@ -69,10 +69,10 @@ T = {
     "C18": ("exploration", "deterministic line-level scheduler over Pool/Worker: exhaustive <=2-preemption + generated schedules; live refusal-reply layer",
             "The pool is driven under a harness-owned scheduler (submit/finish/close racing) and checked for exactly-once execution or justified refusal, worker bound, idle/busy disjointness, no deadlock and worker exit after close; a live layer checks that a refused connection receives CONNECTFAIL naming the pool.",
             "scheduler granularity = source line; threading primitives of svr_threads are replaced by scheduler-aware ones", "4/C18"),
-    "C19": ("exploration", "grammar-based Hypothesis generation of URI strings and near-misses; parse/print round-trip, fixed point, hash/eq laws, reference parse for the clean sub-grammar, serializer/proxy/name-server paths",
+    "C19": ("exploration", "grammar-based Hypothesis generation of URI strings and near-misses; parse/print round-trip, fixed point, hash/eq laws, reference parse for the clean sub-grammar, serializer/proxy/name-server paths; atheris campaign on the parser (thorough)",
             "Generated URI strings and near-misses: every accepted string must print to a text form that is accepted, parses to an equal URI field by field and is a fixed point; equal URIs hash equal, different locations compare unequal, and the URI survives all four serializers (result and argument path), the Proxy state path and NameServer register/lookup. Clean strings are also compared with an independent reference parse.",
             "Python int() defines valid port spellings; reference parse covers only the clean sub-grammar", "4/C19"),
-    "C20": ("exploration", "generated WSGI environs against pyro_app with a real in-process name server and objects; authorisation oracle + request counters",
+    "C20": ("exploration", "generated WSGI environs (optionally after an earlier request of the same gateway process) against pyro_app with a real in-process name server and objects; authorisation oracle + record of every message the daemons receive",
             "Generated request methods, paths, query strings, key headers/parameters, expose patterns and key settings are fed to the gateway's WSGI app with a real name server and objects behind it; unauthorised requests must get 403/404/405 with zero Pyro traffic, authorised ones exactly one invocation with exactly the parameters and the JSON result/error.",
             "expose patterns drawn from a family whose meaning is computed without re", "4/C20"),
 }
